@@ -23,6 +23,7 @@ TInit ==
   /\ pc = [c \in Callers |-> "idle"] /\ op = [c \in Callers |-> "none"]
   /\ cap = [c \in Callers |-> "none"] /\ isTask = [c \in Callers |-> FALSE]
   /\ ret = [c \in Callers |-> "none"] /\ lastEdge = <<>>
+  /\ lst2 = "none" /\ loaded = TRUE
 
 TNotify ==
   /\ l <= Len(T) /\ T[l].ev = "notify"
@@ -32,7 +33,7 @@ TNotify ==
   /\ st' = T[l].new
   /\ lastEdge' = <<T[l].old, T[l].new>>
   /\ l' = l + 1
-  /\ UNCHANGED <<dir, file, failR, abortR, bg, bgCancelled, holder, waitq, pc, op, cap, isTask, ret, tid>>
+  /\ UNCHANGED <<dir, file, failR, abortR, bg, bgCancelled, holder, waitq, pc, op, cap, isTask, ret, lst2, loaded, tid>>
 
 Done ==
   /\ l = Len(T) + 1
